@@ -642,9 +642,18 @@ impl Compiler {
                 let num_locals = self.symbols.leave_context();
 
                 // Create function object and store as constant
-                let obj = Object::function(
+                let num_params = match u8::try_from(parameters.len()) {
+                    Ok(n) => n,
+                    Err(_) => {
+                        return Err(Error::SyntaxError(
+                            "een functie kan maximaal 255 parameters hebben".to_string(),
+                        ))
+                    }
+                };
+                let obj = Object::function_with_arity(
                     pos_start_function.try_into().unwrap(),
                     num_locals.try_into().unwrap(),
+                    num_params,
                 );
                 let idx = self.add_constant(obj);
                 self.emit_opcode(OpCode::Const);
